@@ -613,6 +613,12 @@ def unique_rank(F, rep, rid):
                 ok = bool(incs) and not decs and any(f.cfg.dominates(i, w) for i in incs)
                 why = "`%s` is incremented before the assignment (%d site(s)) and never lowered here" % (rhs.get("n"), len(incs)) if ok else \
                       "`%s` is not an only-growing counter in this function" % rhs.get("n")
+                # ... and it outlives the call: a reference (to a member, a map element), a static or a parameter passed by
+                # reference -- a by-value local starts again at every call
+                decl = [x for x in f.walk() if x["k"] == "VarDecl" and x.get("d") == d]
+                if ok and decl and decl[0].get("st") == "local" and not decl[0].get("ref"):
+                    ok = False
+                    why = "`%s` is a local that starts again at every call of this function" % rhs.get("n")
             rep.add(rid, "%s|rank" % f.q.split("<")[0], f.loc(w), "%s sets the rank of a new bias: %s" % (f.q.split("<")[0], why), ok,
                     detail="two biases with the same default name: by-name script commands reach only the older one", func=f.q)
     if n < 1:
